@@ -523,11 +523,27 @@ func c18Round3(c *Ctx) {
 					}
 				}
 			}
-			seen := reach(fn, []*ssa.BasicBlock{tb.Succs[0]}, del, nil)
+			// the member stays the metadata block for the rest of the iteration: a second test of
+			// the same name (the condition kept in a named boolean and asked twice) goes the same way
+			for _, tb2 := range tests {
+				del[edge{tb2.Index, 1}] = true
+			}
 			bad := false
-			for _, cp := range copies {
-				if seen[cp.Block().Index] {
-					bad = true
+			readsFirst := false
+			for _, in := range tb.Succs[0].Instrs {
+				if ci, ok := in.(ssa.CallInstruction); ok {
+					switch p.calleeName(ci.Common()) {
+					case "io/ioutil.ReadAll", "io.ReadAll":
+						readsFirst = true
+					}
+				}
+			}
+			if !readsFirst {
+				seen := reach(fn, []*ssa.BasicBlock{tb.Succs[0]}, del, nil)
+				for _, cp := range copies {
+					if seen[cp.Block().Index] {
+						bad = true
+					}
 				}
 			}
 			c.Check(!bad, "R18i", fmt.Sprintf("DigestMsiTar metadata member test#%d", i+1), p.Pos(lastPos(tb)), "read whole or skipped", "when the member is the metadata block the stream copy into the digest can still be reached without the member having been read on its own: with extended signatures off the metadata is hashed as if it were a stream, the tar digest differs from DigestMSI and the signed file fails verification")
